@@ -439,6 +439,23 @@ pub fn run_case(env: &Env, case: &Case, oracle: &mut Oracle, mut fill: Option<Pl
                         }
                     }
                 }
+                // A transient read error on a file: "unreadable" (the tool gave up) and "read
+                // completely" (it tried again) are both legal; a mixture is not. Judge with the
+                // reading that fits; if neither does, the second (fault-free) one is reported.
+                if !fired.transient_read.is_empty() {
+                    let mut f1 = fired.clone();
+                    f1.read_failed.extend(fired.transient_read.iter().cloned());
+                    let p1 = model::predict(&tree, &inv, &f1, oracle);
+                    let after1 = world::snapshot(&root).ok().map(|mut s| {
+                        s.retain(|k, _| !droppings.iter().any(|d| k == d || is_below(k, d)));
+                        s
+                    });
+                    if let Some(a1) = &after1 {
+                        if model::check(idx, &tree, &seen_before, &inv, &p1, a1, &out).is_empty() {
+                            fired.read_failed = f1.read_failed;
+                        }
+                    }
+                }
                 let pred = model::predict(&tree, &inv, &fired, oracle);
                 let mut after = match world::snapshot(&root) {
                     Ok(s) => s,
